@@ -211,6 +211,8 @@ val parse_reference : nat -> bool -> tok list -> (reference * tok list) option
 val steps_loop :
   nat -> bool -> nat -> tok list -> (step list * tok list) option
 
+val parse_expr : nat -> tok list -> (expr * tok list) option
+
 val parse_addressed_reference :
   nat -> bool -> tok list -> (reference * tok list) option
 
